@@ -144,7 +144,7 @@ func walk(t *testing.T, d files.Directory, budget *int) ([]entry, bool) {
 	for it.Next() {
 		*budget--
 		if *budget < 0 {
-			t.Fatalf("walk does not terminate")
+			panic("walk of the parsed directory does not terminate")
 		}
 		name := []byte(it.Name())
 		switch f := it.Node().(type) {
@@ -165,19 +165,26 @@ func walk(t *testing.T, d files.Directory, budget *int) ([]entry, bool) {
 			}
 			out = append(out, entry{name, &node{kind: kFile, m: m, data: b}})
 		default:
-			t.Fatalf("unexpected node type %T", f)
+			panic(fmt.Sprintf("unexpected node type %T", f))
 		}
 	}
 	return out, it.Err() != nil
 }
 
-func parseAndWalk(t *testing.T, stream []byte, boundary string) ([]entry, bool) {
+// parseAndWalk returns fail != "" when the implementation panicked or looped (reported as a violation with a replay).
+func parseAndWalk(t *testing.T, stream []byte, boundary string) (out []entry, bad bool, fail string) {
+	defer func() {
+		if r := recover(); r != nil {
+			fail = fmt.Sprint(r)
+		}
+	}()
 	d, err := files.NewFileFromPartReader(multipart.NewReader(bytes.NewReader(stream), boundary), "multipart/form-data")
 	if err != nil {
-		t.Fatalf("NewFileFromPartReader: %v", err)
+		return nil, false, "NewFileFromPartReader: " + err.Error()
 	}
-	budget := 100000
-	return walk(t, d, &budget)
+	budget := 20000
+	out, bad = walk(t, d, &budget)
+	return out, bad, ""
 }
 
 var ctypeText = map[string]string{
@@ -392,7 +399,11 @@ func runTree(t *testing.T, e *vh.Env, cs *vh.Cases, st *vh.Stats, es []entry, fo
 		}
 	}
 	raws := rawParts(t, stream.Bytes(), mfr.Boundary())
-	out, bad := parseAndWalk(t, stream.Bytes(), mfr.Boundary())
+	out, bad, fail := parseAndWalk(t, stream.Bytes(), mfr.Boundary())
+	if fail != "" {
+		st.Violate("parsing the serialized tree: "+fail, "", map[string]any{"kind": "tree", "form": form, "tree": entriesCoq(es), "from": tag})
+		return
+	}
 	term := "(CTree " + vh.Bool(form) + " " + entriesCoq(es) + " " + vh.List(raws) + " " + entriesCoq(out) + " " + vh.Bool(bad) + ")"
 	rp := map[string]any{"kind": "tree", "form": form, "tree": entriesCoq(es), "from": tag}
 	cs.Add(term, rp)
@@ -616,7 +627,15 @@ func runParts(t *testing.T, e *vh.Env, cs *vh.Cases, st *vh.Stats, ps []part, ta
 		pw.Write(p.body)
 	}
 	w.Close()
-	out, bad := parseAndWalk(t, stream.Bytes(), w.Boundary())
+	out, bad, fail := parseAndWalk(t, stream.Bytes(), w.Boundary())
+	if fail != "" {
+		hs := make([]string, len(ps))
+		for i, p := range ps {
+			hs[i] = fmt.Sprintf("%s|%s|%s|%s", p.disp, p.formname, p.filename, p.ctype)
+		}
+		st.Violate("parsing a hand-made part sequence: "+fail, "", map[string]any{"kind": "parts", "parts": hs, "from": tag})
+		return
+	}
 	term := "(CParse " + vh.ListOf(ps, part.coq) + " " + entriesCoq(out) + " " + vh.Bool(bad) + ")"
 	desc := make([]string, len(ps))
 	for i, p := range ps {
